@@ -359,7 +359,9 @@ def run(run):
 DOC_SECTIONS = [("Version", ["~Version", "~V", "~VERSION INFORMATION", "~v"]), ("Well", ["~Well", "~W", "~w", "~WELL INFORMATION BLOCK"]),
                 ("Curves", ["~Curve", "~C", "~c", "~CURVE INFORMATION"]), ("Parameter", ["~Parameter", "~P", "~p", "~Par", "~PARAMETER INFORMATION", "~Params"]),
                 ("Tops", ["~Tops"])]
-TEXT_VALUES = ["12,25 then 8,5 hole", "LSD 12,4 SEC 7", "1,234,567", "a1,2b", "3,14 rad", "KB 12,5 ft", "|azimuth| < 5", "a | b", "x|y|z", "1,5-2,5"]
+TEXT_VALUES = ["12,25 then 8,5 hole", "LSD 12,4 SEC 7", "1,234,567", "a1,2b", "3,14 rad", "KB 12,5 ft", "|azimuth| < 5", "a | b", "x|y|z", "1,5-2,5",
+               # integer literals at and beyond the 64-bit range (serial numbers): still the value field of the line
+               "9223372036854775807", "9223372036854775808", "-9223372036854775809", "12345678901234567890123"]
 
 
 def doc_case(run, rng, i):
